@@ -116,4 +116,12 @@ REGISTRY = {
         "assumptions": TOK_ASSUME + ["Decode / Encode are witnessed functions: encoding_rs applied once to the whole slice the specification designates (decode_without_bom_handling / encode); code-point tables are encoding_rs's (trusted base)",
                                      "a string for which the record carries no witness for the slice the reference tokenizer designates is not compared (counted as unknown)"],
     },
+    "C03": {
+        "level": "model_checking",
+        "traces": [{"job": "c03", "module": "TraceWhatwg", "cfg": "TraceWhatwg.cfg", "timeout": 1500, "timeout_thorough": 10800}],
+        "mc": [],
+        "assumptions": TOK_ASSUME + ["the tree builder's feedback (tokenizer state after each tag, CDATA allowed) is a witnessed function supplied by html5ever 0.39's TreeBuilder; the tokenizer state machine is the TLA+ specification",
+                                     "a violation is raised only when the reference token stream also equals html5ever's own token stream; otherwise the input is counted as inconclusive",
+                                     "inputs are ASCII without '&', CR and NUL (html5ever decodes / normalises them, lol-html is raw by design); later duplicate attributes are dropped on all sides"],
+    },
 }
